@@ -272,6 +272,11 @@ inductive CallPhase (α ε : Type)
   | left (r : FnResult α ε)         -- mutex released; reply on its way
   | returned (r : FnResult α ε)     -- the stub call returned to the plugin
 
+/-- the call has not yet returned a result to the plugin -/
+def CallPhase.pending {α ε : Type} : CallPhase α ε → Bool
+  | .returned _ => false
+  | _ => true
+
 structure Call (α ε : Type) where
   p : Pid
   update : List α
@@ -297,6 +302,13 @@ inductive Ev (α ε : Type)
   | reqEnd (r : Rid)
   /-- `UpdateContainers` on a stub that was never started returns `out` -/
   | callUnstarted (p : Pid) (update : List α) (out : List α × Option (StubErr ε))
+  /-- the caller of the pending call `u` goes away: its connection is lost (stub stopped, socket
+      closed under it) or it stops waiting (the caller's context expires). The stub call ends
+      with the transport's error `e` — NOT with a result of the callback. Nothing on the runtime
+      side moves: `Adaptation.updateContainers` does not look at the request context, so the
+      mutex word, the section and a callback in progress are untouched, and the call's runtime
+      side carries on (`enter`/`fn`/`leave` stay enabled); only `ret` is no longer possible -/
+  | gone (u : Uid) (e : StubErr ε)
 
 structure State (α ε : Type) where
   /-- the adaptation mutex -/
@@ -313,6 +325,8 @@ structure State (α ε : Type) where
   rets : Uid → List (List α × Option (StubErr ε)) := fun _ => []
   /-- ids of the requests that have finished (ghost: request ids are not reused) -/
   doneReqs : List Rid := []
+  /-- ghost log: the transport error with which call `u` ended because its caller went away -/
+  lost : Uid → List (StubErr ε) := fun _ => []
 
 def init {α ε : Type} : State α ε := {}
 
@@ -346,7 +360,7 @@ def step? {α ε : Type} [DecidableEq α] [DecidableEq ε] (s : State α ε) : E
   | .ret u out =>
     match s.call u with
     | some ⟨p, update, .left r⟩ =>
-      if out = expected r then
+      if out = expected r ∧ s.lost u = [] then
         some { s with call := upd s.call u (some ⟨p, update, .returned r⟩),
                       rets := upd s.rets u (out :: s.rets u) } else none
     | _ => none
@@ -362,6 +376,12 @@ def step? {α ε : Type} [DecidableEq α] [DecidableEq ε] (s : State α ε) : E
   | .callUnstarted _ update out =>
     if out = stubUpdate (none : Option (List α → Option (List α) × Option ε)) update then some s
     else none
+  | .gone u e =>
+    match s.call u with
+    | some c =>
+      if c.phase.pending = true ∧ s.lost u = [] then some { s with lost := upd s.lost u [e] }
+      else none
+    | none => none
 
 def run {α ε : Type} [DecidableEq α] [DecidableEq ε] (s : State α ε) : List (Ev α ε) → Option (State α ε)
   | [] => some s
